@@ -633,3 +633,48 @@ Qed.
 Lemma deref_cit_number refs c d z :
   cit_rx_match c = Ok (Some (CM d)) -> py_int_of_str d = Ok z -> deref_cit refs c = py_getitem refs (z - 1).
 Proof. intros Hm Hz. unfold deref_cit. rewrite Hm. cbn. now rewrite Hz. Qed.
+
+(* ---------- the written form can be read back (the product is an input of the next level) ------------ *)
+
+From Coq Require Import DecimalString DecimalPos DecimalZ Ascii.
+
+Lemma take_digits_uint d rest :
+  (match rest with String a _ => is_digit a = false | EmptyString => True end) ->
+  take_digits (NilEmpty.string_of_uint d ++ rest) = (NilEmpty.string_of_uint d, rest).
+Proof.
+  intros Hrest. induction d; cbn [NilEmpty.string_of_uint append take_digits];
+    try (rewrite IHd; reflexivity).
+  destruct rest as [|a r]; [reflexivity|]. cbn [take_digits]. now rewrite Hrest.
+Qed.
+
+Lemma string_of_uint_nonempty d : d <> Decimal.Nil -> NilEmpty.string_of_uint d <> EmptyString.
+Proof. destruct d; cbn; congruence. Qed.
+
+Lemma to_uint_nonnil p : Pos.to_uint p <> Decimal.Nil.
+Proof.
+  intros H. pose proof (DecimalPos.Unsigned.of_to p) as E. rewrite H in E. discriminate.
+Qed.
+
+Lemma nz_string u : u <> Decimal.Nil -> NilZero.string_of_uint u = NilEmpty.string_of_uint u.
+Proof. destruct u; cbn; congruence. Qed.
+
+Lemma int_of_uint_string u : u <> Decimal.Nil ->
+  py_int_of_str (NilEmpty.string_of_uint u) = Ok (Z.of_uint u).
+Proof.
+  intros Hn. unfold py_int_of_str. pose proof (string_of_uint_nonempty u Hn) as Hne.
+  rewrite NilEmpty.usu. destruct (NilEmpty.string_of_uint u); [congruence|reflexivity].
+Qed.
+
+(* "[k]" as written by _ref_citations, read by _deref_citations: the k-th reference (k >= 1) *)
+Theorem deref_format refs (k : positive) :
+  deref_cit refs (cit_format_index (Zpos k)) = py_getitem refs (Zpos k - 1).
+Proof.
+  unfold cit_format_index. cbn [Z.to_int]. unfold NilZero.string_of_int, Pos.to_int.
+  pose proof (to_uint_nonnil k) as Hn. rewrite (nz_string _ Hn).
+  set (u := Pos.to_uint k) in *.
+  assert (Hz : Z.of_uint u = Zpos k).
+  { unfold Z.of_uint, u. now rewrite DecimalPos.Unsigned.of_to. }
+  rewrite <- Hz.
+  apply deref_cit_number with (d := NilEmpty.string_of_uint u); [|now apply int_of_uint_string].
+  unfold cit_rx_match. cbn [Ascii.eqb Bool.eqb]. rewrite take_digits_uint by reflexivity. reflexivity.
+Qed.
